@@ -2,11 +2,11 @@
 # usage: seed_seeds.sh "<seeds>" [ids...]  -- every seeded change against its own quick check at several seeds, each change in its
 # own scratch worktree of /repo HEAD (VERIF_REPO), outputs redirected (VERIF_OUT).  Writes seeded/SEEDS.txt.
 SEEDS="${1:-1 2 3}"; shift
-IDS="$*"; [ -z "$IDS" ] && IDS=$(ls /verif/seeded | grep -E '^(R2)?C[0-9]+$')
+IDS="$*"; [ -z "$IDS" ] && IDS=$(ls /verif/seeded | grep -E '^(R[0-9])?C[0-9]+$')
 S=$(mktemp -d /tmp/verif_seeds_XXXX)
 cd /verif/lean && lake build >/dev/null 2>&1
 one() {
-  id=$1; P=${id#R2}; WT=$S/wt_$id
+  id=$1; P=$(echo "$id" | sed 's/^R[0-9]//'); WT=$S/wt_$id
   git -C /repo worktree add --detach -q "$WT" HEAD || return
   rsync -a --exclude .git --exclude '*.o' --exclude '*.lo' --exclude '*.la' --exclude .libs --ignore-existing /repo/ "$WT"/
   git -C "$WT" apply /verif/seeded/$id/patch.diff 2>/dev/null || { echo "$id patch-does-not-apply" > $S/$id.row; git -C /repo worktree remove --force "$WT"; return; }
